@@ -83,119 +83,500 @@ macro "fr_norm" : tactic => `(tactic| (
     intOf, bytesOf, boolOf, isEmptyObj, zeroOf, v14Runtime, v14Clients, v15Qlog, v16Stats, safeSearchDefault,
     scheduleDefault, v25Pprof, if_true, if_false, Bool.false_eq_true]))
 
+/-- The same without unfolding `FrameOK` (so that `split` works on the step, not on it). -/
+macro "fr_pre" : tactic => `(tactic| (
+  simp (config := {decide := true}) only [typeErr, bail, putK, delK, setK,
+    intOf, bytesOf, boolOf, isEmptyObj, zeroOf, v14Runtime, v14Clients, v15Qlog, v16Stats, safeSearchDefault,
+    scheduleDefault, v25Pprof, if_true, if_false, Bool.false_eq_true]))
+
 /-- One level: the mapping under the current path changed at most at the keys given;
 keys that are concerned as a whole, or unchanged, are discharged. -/
 macro "fr_level" "[" ks:term,* "]" : tactic => `(tactic| (
   refine frameV_obj_mod' _ _ _ _ [$ks,*] (Or.inr (by decide)) (by lk_diff) ?_
-  (repeat' (first | apply allKeys_nil | apply allKeys_cons))
-  all_goals (first | exact key_touched (by decide) | exact key_same (by lk_simp) | skip)))
+  (repeat' (first | exact allKeys_nil | refine allKeys_cons ?_ ?_))
+  all_goals (first | exact key_touched (by decide) | (refine key_same ?_; lk_simp; done) | skip)))
 
 /-- Enter a changed section (a mapping that was read with `fieldVal[yobj]`). -/
 macro "fr_sub" o:term : tactic => `(tactic| (
   refine key_sub $o (by assumption) ?_
-  simp only [lookup_insert_same, er_obj, erEnts_insert, erEnts_erase]))
+  simp (config := {decide := true}) only [lookup_insert_same, lookup_insert_ne, ne_eq, not_false_eq_true, er_obj,
+    erEnts_insert, erEnts_erase]))
 
 theorem step1_frame (o : Oracles) (es) : FrameOK o 1 es (migrateTo1 (.obj es)) := by
   open_step
-  (repeat' fv_split2) <;> fr_norm <;> (repeat' split) <;> (try fr_norm) <;> (try trivial) <;>
+  (repeat' fv_split2) <;> (try fr_pre) <;> (repeat' split) <;> (try fr_norm) <;> (try trivial) <;>
     fr_level [kSchemaVersion]
 
 theorem step2_frame (o : Oracles) (es) : FrameOK o 2 es (migrateTo2 (.obj es)) := by
   open_step
-  (repeat' fv_split2) <;> fr_norm <;> (repeat' split) <;> (try fr_norm) <;> (try trivial) <;>
+  (repeat' fv_split2) <;> (try fr_pre) <;> (repeat' split) <;> (try fr_norm) <;> (try trivial) <;>
     fr_level [kSchemaVersion, kCoredns, kDns]
 
 theorem step3_frame (o : Oracles) (es) : FrameOK o 3 es (migrateTo3 (.obj es)) := by
   open_step
-  (repeat' fv_split2) <;> fr_norm <;> (repeat' split) <;> (try fr_norm) <;> (try trivial) <;>
+  (repeat' fv_split2) <;> (try fr_pre) <;> (repeat' split) <;> (try fr_norm) <;> (try trivial) <;>
     fr_level [kSchemaVersion, kDns]
   all_goals (fr_sub o; fr_level [kBootstrapDns])
 
 theorem step5_frame (o : Oracles) (es) : FrameOK o 5 es (migrateTo5 (.obj es)) := by
   open_step
-  (repeat' fv_split2) <;> fr_norm <;> (repeat' split) <;> (try fr_norm) <;> (try trivial) <;>
+  (repeat' fv_split2) <;> (try fr_pre) <;> (repeat' split) <;> (try fr_norm) <;> (try trivial) <;>
     fr_level [kSchemaVersion, kAuthName, kAuthPass, kUsers]
 
 theorem step8_frame (o : Oracles) (es) : FrameOK o 8 es (migrateTo8 (.obj es)) := by
   open_step
-  (repeat' fv_split2) <;> fr_norm <;> (repeat' split) <;> (try fr_norm) <;> (try trivial) <;>
+  (repeat' fv_split2) <;> (try fr_pre) <;> (repeat' split) <;> (try fr_norm) <;> (try trivial) <;>
     fr_level [kSchemaVersion, kDns]
   all_goals (fr_sub o; fr_level [kBindHost, kBindHosts])
 
 theorem step9_frame (o : Oracles) (es) : FrameOK o 9 es (migrateTo9 (.obj es)) := by
   open_step
-  (repeat' fv_split2) <;> fr_norm <;> (repeat' split) <;> (try fr_norm) <;> (try trivial) <;>
+  (repeat' fv_split2) <;> (try fr_pre) <;> (repeat' split) <;> (try fr_norm) <;> (try trivial) <;>
     fr_level [kSchemaVersion, kDns]
   all_goals (fr_sub o; fr_level [kAutohostTld, kLocalDomainName])
 
 theorem step11_frame (o : Oracles) (es) : FrameOK o 11 es (migrateTo11 (.obj es)) := by
   open_step
-  (repeat' fv_split2) <;> fr_norm <;> (repeat' split) <;> (try fr_norm) <;> (try trivial) <;>
+  (repeat' fv_split2) <;> (try fr_pre) <;> (repeat' split) <;> (try fr_norm) <;> (try trivial) <;>
     fr_level [kSchemaVersion, kRlimitNofile, kOs]
 
 theorem step12_frame (o : Oracles) (es) : FrameOK o 12 es (migrateTo12 (.obj es)) := by
   open_step
-  (repeat' fv_split2) <;> fr_norm <;> (repeat' split) <;> (try fr_norm) <;> (try trivial) <;>
+  (repeat' fv_split2) <;> (try fr_pre) <;> (repeat' split) <;> (try fr_norm) <;> (try trivial) <;>
     fr_level [kSchemaVersion, kDns]
   all_goals (fr_sub o; fr_level [kQuerylogInterval])
 
 theorem step13_frame (o : Oracles) (es) : FrameOK o 13 es (migrateTo13 (.obj es)) := by
   open_step
-  (repeat' fv_split2) <;> fr_norm <;> (repeat' split) <;> (try fr_norm) <;> (try trivial) <;>
+  (repeat' fv_split2) <;> (try fr_pre) <;> (repeat' split) <;> (try fr_norm) <;> (try trivial) <;>
     fr_level [kSchemaVersion, kDns, kDhcp]
   all_goals (fr_sub o; fr_level [kLocalDomainName])
 
 theorem step14_frame (o : Oracles) (es) : FrameOK o 14 es (migrateTo14 (.obj es)) := by
   open_step
-  (repeat' fv_split2) <;> fr_norm <;> (repeat' split) <;> (try fr_norm) <;> (try trivial) <;>
+  (repeat' fv_split2) <;> (try fr_pre) <;> (repeat' split) <;> (try fr_norm) <;> (try trivial) <;>
     fr_level [kSchemaVersion, kClients, kDns]
   all_goals (fr_sub o; fr_level [kResolveClients])
 
 theorem step16_frame (o : Oracles) (es) : FrameOK o 16 es (migrateTo16 (.obj es)) := by
   open_step
-  (repeat' fv_split2) <;> fr_norm <;> (repeat' split) <;> (try fr_norm) <;> (try trivial) <;>
+  (repeat' fv_split2) <;> (try fr_pre) <;> (repeat' split) <;> (try fr_norm) <;> (try trivial) <;>
     fr_level [kSchemaVersion, kDns, kStatistics]
   all_goals (fr_sub o; fr_level [kStatisticsInterval])
 
 theorem step17_frame (o : Oracles) (es) : FrameOK o 17 es (migrateTo17 (.obj es)) := by
   open_step
-  (repeat' fv_split2) <;> fr_norm <;> (repeat' split) <;> (try fr_norm) <;> (try trivial) <;>
+  (repeat' fv_split2) <;> (try fr_pre) <;> (repeat' split) <;> (try fr_norm) <;> (try trivial) <;>
     fr_level [kSchemaVersion, kDns]
   all_goals (fr_sub o; fr_level [kEdnsClientSubnet])
 
 theorem step18_frame (o : Oracles) (es) : FrameOK o 18 es (migrateTo18 (.obj es)) := by
   open_step
-  (repeat' fv_split2) <;> fr_norm <;> (repeat' split) <;> (try fr_norm) <;> (try trivial) <;>
+  (repeat' fv_split2) <;> (try fr_pre) <;> (repeat' split) <;> (try fr_norm) <;> (try trivial) <;>
     fr_level [kSchemaVersion, kDns]
   all_goals (fr_sub o; fr_level [kSafesearchEnabled, kSafeSearch])
 
 theorem step20_frame (o : Oracles) (es) : FrameOK o 20 es (migrateTo20 (.obj es)) := by
   open_step
-  (repeat' fv_split2) <;> fr_norm <;> (repeat' split) <;> (try fr_norm) <;> (try trivial) <;>
+  (repeat' fv_split2) <;> (try fr_pre) <;> (repeat' split) <;> (try fr_norm) <;> (try trivial) <;>
     fr_level [kSchemaVersion, kStatistics]
   all_goals (fr_sub o; fr_level [kInterval])
 
 theorem step21_frame (o : Oracles) (es) : FrameOK o 21 es (migrateTo21 (.obj es)) := by
   open_step
-  (repeat' fv_split2) <;> fr_norm <;> (repeat' split) <;> (try fr_norm) <;> (try trivial) <;>
+  (repeat' fv_split2) <;> (try fr_pre) <;> (repeat' split) <;> (try fr_norm) <;> (try trivial) <;>
     fr_level [kSchemaVersion, kDns]
   all_goals (fr_sub o; fr_level [kBlockedServices])
 
 theorem step23_frame (o : Oracles) (es) : FrameOK o 23 es (migrateTo23 o (.obj es)) := by
   open_step
-  (repeat' fv_split2) <;> fr_norm <;> (repeat' split) <;> (try fr_norm) <;> (try trivial) <;>
+  (repeat' fv_split2) <;> (try fr_pre) <;> (repeat' split) <;> (try fr_norm) <;> (try trivial) <;>
     fr_level [kSchemaVersion, kBindHost, kBindPort, kWebSessionTtl, kHttp]
 
 theorem step25_frame (o : Oracles) (es) : FrameOK o 25 es (migrateTo25 (.obj es)) := by
   open_step
-  (repeat' fv_split2) <;> fr_norm <;> (repeat' split) <;> (try fr_norm) <;> (try trivial) <;>
+  (repeat' fv_split2) <;> (try fr_pre) <;> (repeat' split) <;> (try fr_norm) <;> (try trivial) <;>
     fr_level [kSchemaVersion, kDebugPprof, kHttp]
   all_goals (fr_sub o; fr_level [kPprof])
 
 theorem step28_frame (o : Oracles) (es) : FrameOK o 28 es (migrateTo28 (.obj es)) := by
   open_step
-  (repeat' fv_split2) <;> fr_norm <;> (repeat' split) <;> (try fr_norm) <;> (try trivial) <;>
+  (repeat' fv_split2) <;> (try fr_pre) <;> (repeat' split) <;> (try fr_norm) <;> (try trivial) <;>
     fr_level [kSchemaVersion, kDns]
   all_goals (fr_sub o; fr_level [kAllServers, kFastestAddr, kUpstreamMode])
+
+/-! ### steps built on `errors.Join(moveVal…)` -/
+
+/-- After the moves the source map is the old one outside the moved keys. -/
+theorem moves_src_er (o : Oracles) (ms : List (Ty × Key × Key)) (w ds : List (Key × YVal))
+    {ss dd : List (Key × YVal)} {e : Bool} (hm : moves ms (.obj w) (.obj ds) = .ok (.obj ss, .obj dd, e))
+    (k : Key) (hk : k ∉ srcKeys ms) : lookup k (erEnts o ss) = lookup k (erEnts o w) := by
+  obtain ⟨s', d', e', hm', hf, _⟩ := moves_spec ms (.obj w) ds
+  rw [hm] at hm'
+  simp at hm'
+  obtain ⟨rfl, _, _⟩ := hm'
+  have := hf k hk
+  simp only [getK] at this
+  rw [lookup_erEnts, lookup_erEnts, this]
+
+theorem step7_frame (o : Oracles) (es) : FrameOK o 7 es (migrateTo7 (.obj es)) := by
+  simp only [migrateTo7, stamp, setK]
+  fv_split2
+  · rename_i w hs
+    obtain ⟨s', d', e, hm, _, ho⟩ := moves_spec v7Moves (.obj w) []
+    obtain ⟨ss, rfl⟩ := (ho trivial).elim
+    simp only [hm]
+    (try fr_pre) <;> (repeat' split) <;> (try fr_norm) <;> (try trivial) <;> fr_level [kSchemaVersion, kDhcp]
+    fr_sub o
+    refine frameV_obj_mod' _ _ _ _ [kGatewayIp, kSubnetMask, kRangeStart, kRangeEnd, kLeaseDuration, kIcmpTimeoutMsec,
+      kDhcpv4] (Or.inr (by decide)) ?_ ?_
+    · intro k hk
+      simp only [List.mem_cons, List.mem_nil_iff, or_false, not_or] at hk
+      rw [lookup_insert_ne' _ _ _ _ hk.2.2.2.2.2.2]
+      exact moves_src_er o v7Moves w [] hm k (by simp [srcKeys, v7Moves, hk])
+    · (repeat' (first | exact allKeys_nil | refine allKeys_cons ?_ ?_))
+      all_goals exact key_touched (by decide)
+  · (try fr_pre) <;> (try fr_norm) <;> fr_level [kSchemaVersion, kDhcp]
+  · (try fr_pre) <;> (try fr_norm) <;> fr_level [kSchemaVersion, kDhcp]
+
+theorem step15_frame (o : Oracles) (es) : FrameOK o 15 es (migrateTo15 (.obj es)) := by
+  simp only [migrateTo15, stamp, setK, v15Qlog]
+  fv_split2
+  · rename_i w hs
+    obtain ⟨s', d', e, hm, _, ho⟩ := moves_spec v15Moves (.obj w)
+      [(kIgnored, .arr []), (kEnabled, .bool true), (kFileEnabled, .bool true),
+        (kInterval, .str s2160h), (kSizeMemory, .int 1000)]
+    obtain ⟨ss, rfl⟩ := (ho trivial).elim
+    simp only [hm]
+    (try fr_pre) <;> (repeat' split) <;> (try fr_norm) <;> (try trivial) <;>
+      fr_level [kSchemaVersion, kDns, kQuerylog]
+    fr_sub o
+    refine frameV_obj_mod' _ _ _ _ [kQuerylogEnabled, kQuerylogFileEnabled, kQuerylogInterval, kQuerylogSizeMemory]
+      (Or.inr (by decide)) ?_ ?_
+    · intro k hk
+      simp only [List.mem_cons, List.mem_nil_iff, or_false, not_or] at hk
+      exact moves_src_er o v15Moves w _ hm k (by simp [srcKeys, v15Moves, hk])
+    · (repeat' (first | exact allKeys_nil | refine allKeys_cons ?_ ?_))
+      all_goals exact key_touched (by decide)
+  · (try fr_pre) <;> (try fr_norm) <;> fr_level [kSchemaVersion, kDns, kQuerylog]
+  · (try fr_pre) <;> (try fr_norm) <;> fr_level [kSchemaVersion, kDns, kQuerylog]
+
+theorem step26_frame (o : Oracles) (es) : FrameOK o 26 es (migrateTo26 (.obj es)) := by
+  simp only [migrateTo26, stamp, setK]
+  fv_split2
+  · rename_i w hs
+    obtain ⟨s', d', e, hm, _, ho⟩ := moves_spec v26Moves (.obj w) []
+    obtain ⟨ss, rfl⟩ := (ho trivial).elim
+    simp only [hm]
+    cases d' <;> (try fr_pre) <;> (repeat' split) <;> (try fr_norm) <;> (try trivial) <;>
+      fr_level [kSchemaVersion, kDns, kFiltering]
+    all_goals
+      fr_sub o
+      refine frameV_obj_mod' _ _ _ _ (srcKeys v26Moves) (Or.inr (by decide)) ?_ ?_
+      · intro k hk
+        exact moves_src_er o v26Moves w [] hm k hk
+      · simp only [srcKeys, v26Moves]
+        (repeat' (first | exact allKeys_nil | refine allKeys_cons ?_ ?_))
+        all_goals exact key_touched (by decide)
+  · (try fr_pre) <;> (try fr_norm) <;> fr_level [kSchemaVersion, kDns, kFiltering]
+  · (try fr_pre) <;> (try fr_norm) <;> fr_level [kSchemaVersion, kDns, kFiltering]
+
+theorem step24_frame (o : Oracles) (es) : FrameOK o 24 es (migrateTo24 (.obj es)) := by
+  simp only [migrateTo24, stamp, setK]
+  obtain ⟨s', d', e, hm, _, ho⟩ := moves_spec v24Moves (.obj (insert kSchemaVersion (.int ((24 : Nat) : Int)) es)) []
+  obtain ⟨ss, rfl⟩ := (ho trivial).elim
+  simp only [hm]
+  have hag : ∀ k, k ∉ kSchemaVersion :: kLog :: srcKeys v24Moves →
+      lookup k (erEnts o ss) = lookup k (erEnts o es) := by
+    intro k hk
+    simp only [List.mem_cons, not_or] at hk
+    rw [moves_src_er o v24Moves _ [] hm k hk.2.2, erEnts_insert, lookup_insert_ne' _ _ _ _ hk.1]
+  cases d' <;> (try fr_pre) <;> (repeat' split) <;> (try fr_norm) <;> (try trivial)
+  all_goals
+    refine frameV_obj_mod' _ _ _ _ (kSchemaVersion :: kLog :: srcKeys v24Moves) (Or.inr (by decide)) ?_ ?_
+    · intro k hk
+      first
+        | exact hag k hk
+        | (have h2 := hk; simp only [List.mem_cons, not_or] at h2; rw [lookup_insert_ne' _ _ _ _ h2.2.1]; exact hag k hk)
+    · simp only [srcKeys, v24Moves]
+      (repeat' (first | exact allKeys_nil | refine allKeys_cons ?_ ?_))
+      all_goals exact key_touched (by decide)
+
+/-! ### steps that change the elements of a sequence -/
+
+theorem frameList_mapM' (o : Oracles) (fp : List Path) (rp : Path) {f : YVal → M YVal}
+    (hf : ∀ x y, f x = .ok y → frameV fp (.each :: rp) (er o x) (some (er o y)) = true) :
+    ∀ xs ys, mapM' f xs = .ok ys → frameList fp rp (erList o xs) (erList o ys) = true
+  | [], ys, h => by simp [mapM'] at h; subst h; simp [frameList]
+  | x :: xs, ys, h => by
+    unfold mapM' at h
+    cases hx : f x with
+    | error e => simp [hx] at h
+    | ok y =>
+      cases hxs : mapM' f xs with
+      | error e => simp [hx, hxs] at h
+      | ok ys' =>
+        simp [hx, hxs] at h; subst h
+        simp only [erList_cons, frameList, Bool.and_eq_true]
+        exact ⟨hf x y hx, frameList_mapM' o fp rp hf xs ys' hxs⟩
+
+/-- The field is a sequence whose elements the step changed. -/
+theorem key_arr (o : Oracles) {fp : List Path} {rp : Path} {k : Key} {es B : List (Key × YVal)} {xs ys : List YVal}
+    (hs : lookup k es = some (.arr xs)) (hB : lookup k B = some (.arr (erList o ys)))
+    (hr : isTouched fp (pk k :: rp).reverse = true ∨ reaches fp (pk k :: rp).reverse = true)
+    (h : frameList fp (pk k :: rp) (erList o xs) (erList o ys) = true) :
+    KeyFr fp rp (erEnts o es) B k :=
+  ⟨fun v hv => by
+    rw [lookup_erEnts, hs] at hv; cases hv; rw [hB, er_arr]; exact frameV_arr_of fp _ _ _ hr h,
+   fun _ => Or.inl (by simp [lookup_erEnts, hs])⟩
+
+theorem v4Client_frame (o : Oracles) (n : Nat) (rp : Path)
+    (ht : isTouched (touched n) (pk kUseGlobalBlockedServices :: .each :: rp).reverse = true)
+    (hr : reaches (touched n) (PC.each :: rp).reverse = true) (x y : YVal)
+    (h : v4Client x = .ok y) : frameV (touched n) (.each :: rp) (er o x) (some (er o y)) = true := by
+  unfold v4Client at h
+  cases x <;> simp [setK] at h <;> subst h <;> try exact frameV_self _ _ _
+  simp only [er_obj, erEnts_insert]
+  refine frameV_obj_mod' _ _ _ _ [kUseGlobalBlockedServices] (Or.inr hr) (by lk_diff) ?_
+  exact allKeys_cons (key_touched ht) allKeys_nil
+
+theorem step4_frame (o : Oracles) (es) : FrameOK o 4 es (migrateTo4 (.obj es)) := by
+  simp only [migrateTo4, stamp, setK, getK, lookup_insert_ne _ _ _ _ (by decide : kSchemaVersion ≠ kClients)]
+  split
+  · rename_i xs hg
+    cases hm : mapM' v4Client xs with
+    | error e => simp [FrameOK]
+    | ok ys =>
+      fr_norm
+      refine frameV_obj_mod' _ _ _ _ [kSchemaVersion, kClients] (Or.inr (by decide)) (by lk_diff) ?_
+      refine allKeys_cons (key_touched (by decide)) (allKeys_cons ?_ allKeys_nil)
+      refine key_arr o hg (by lk_simp) (Or.inr (by decide))
+        (frameList_mapM' o _ _ (v4Client_frame o 4 _ (by decide) (by decide)) xs ys hm)
+  · fr_norm; fr_level [kSchemaVersion, kClients]
+
+theorem v6Client_frame (o : Oracles) (n : Nat) (rp : Path)
+    (ht : isTouched (touched n) (pk kIds :: .each :: rp).reverse = true)
+    (hr : reaches (touched n) (PC.each :: rp).reverse = true) (x y : YVal)
+    (h : v6Client x = .ok y) : frameV (touched n) (.each :: rp) (er o x) (some (er o y)) = true := by
+  unfold v6Client at h
+  cases x <;> simp [typeErr] at h
+  rename_i ws
+  cases hi : v6Ids (.obj ws) [kIp, kMac] with
+  | error e => simp [hi] at h
+  | ok ids =>
+    simp [hi, setK] at h; subst h
+    simp only [er_obj, erEnts_insert]
+    refine frameV_obj_mod' _ _ _ _ [kIds] (Or.inr hr) (by lk_diff) ?_
+    exact allKeys_cons (key_touched ht) allKeys_nil
+
+theorem step6_frame (o : Oracles) (es) : FrameOK o 6 es (migrateTo6 (.obj es)) := by
+  simp only [migrateTo6, stamp, setK]
+  fv_split2
+  · rename_i xs hs
+    cases xs with
+    | nil => (try fr_pre) <;> (try fr_norm) <;> fr_level [kSchemaVersion, kClients]
+    | cons x xs =>
+      simp at hs
+      cases hm : mapM' v6Client (x :: xs) with
+      | error e => simp [FrameOK, hm]
+      | ok ys =>
+        simp only [hm]
+        fr_norm
+        refine frameV_obj_mod' _ _ _ _ [kSchemaVersion, kClients] (Or.inr (by decide)) (by lk_diff) ?_
+        refine allKeys_cons (key_touched (by decide)) (allKeys_cons ?_ allKeys_nil)
+        refine key_arr o hs (by lk_simp) (Or.inr (by decide))
+          (frameList_mapM' o _ _ (v6Client_frame o 6 _ (by decide) (by decide)) _ ys hm)
+  · (try fr_pre) <;> (try fr_norm) <;> fr_level [kSchemaVersion, kClients]
+  · (try fr_pre) <;> (try fr_norm) <;> (try trivial)
+
+theorem v19Client_frame (o : Oracles) (n : Nat) (rp : Path)
+    (ht1 : isTouched (touched n) (pk kSafesearchEnabled :: .each :: rp).reverse = true)
+    (ht2 : isTouched (touched n) (pk kSafeSearch :: .each :: rp).reverse = true)
+    (hr : reaches (touched n) (PC.each :: rp).reverse = true) (x y : YVal)
+    (h : v19Client x = .ok y) : frameV (touched n) (.each :: rp) (er o x) (some (er o y)) = true := by
+  unfold v19Client at h
+  cases x <;> simp at h <;> try (subst h; exact frameV_self _ _ _)
+  rename_i ws
+  simp only [moveVal, safeSearchDefault, setK] at h
+  revert h
+  fv_split <;> intro h <;> simp [delK] at h <;> subst h <;> simp only [er_obj, erEnts_insert, erEnts_erase] <;>
+    refine frameV_obj_mod' _ _ _ _ [kSafesearchEnabled, kSafeSearch] (Or.inr hr) (by lk_diff) ?_ <;>
+    exact allKeys_cons (key_touched ht1) (allKeys_cons (key_touched ht2) allKeys_nil)
+
+theorem v22Client_frame (o : Oracles) (n : Nat) (rp : Path)
+    (ht : isTouched (touched n) (pk kBlockedServices :: .each :: rp).reverse = true)
+    (hr : reaches (touched n) (PC.each :: rp).reverse = true) (x y : YVal)
+    (h : v22Client x = .ok y) : frameV (touched n) (.each :: rp) (er o x) (some (er o y)) = true := by
+  unfold v22Client at h
+  cases x <;> simp [typeErr] at h
+  rename_i ws
+  revert h
+  fv_split <;> intro h <;> simp [setK, typeErr] at h <;> subst h <;> (try exact frameV_self _ _ _) <;>
+    simp only [er_obj, erEnts_insert] <;>
+    refine frameV_obj_mod' _ _ _ _ [kBlockedServices] (Or.inr hr) (by lk_diff) ?_ <;>
+    exact allKeys_cons (key_touched ht) allKeys_nil
+
+theorem step19_frame (o : Oracles) (es) : FrameOK o 19 es (migrateTo19 (.obj es)) := by
+  simp only [migrateTo19, stamp, setK]
+  fv_split2
+  · rename_i w hs
+    split
+    · rename_i xs hg
+      simp only [getK] at hg
+      cases hm : mapM' v19Client xs with
+      | error e => simp [FrameOK, hm]
+      | ok ys =>
+        simp only [hm]
+        fr_norm
+        refine frameV_obj_mod' _ _ _ _ [kSchemaVersion, kClients] (Or.inr (by decide)) (by lk_diff) ?_
+        refine allKeys_cons (key_touched (by decide)) (allKeys_cons ?_ allKeys_nil)
+        fr_sub o
+        refine frameV_obj_mod' _ _ _ _ [kPersistent] (Or.inr (by decide)) (by lk_diff) ?_
+        refine allKeys_cons ?_ allKeys_nil
+        refine key_arr o hg (by lk_simp) (Or.inr (by decide))
+          (frameList_mapM' o _ _ (v19Client_frame o 19 _ (by decide) (by decide) (by decide)) xs ys hm)
+    · (try fr_pre) <;> (try fr_norm) <;> fr_level [kSchemaVersion, kClients]
+  · (try fr_pre) <;> (try fr_norm) <;> fr_level [kSchemaVersion, kClients]
+  · (try fr_pre) <;> (try fr_norm) <;> (try trivial)
+
+theorem step22_frame (o : Oracles) (es) : FrameOK o 22 es (migrateTo22 (.obj es)) := by
+  simp only [migrateTo22, stamp, setK]
+  fv_split2
+  · rename_i w hs
+    fv_split2
+    · rename_i xs hp
+      cases xs with
+      | nil => (try fr_pre) <;> (try fr_norm) <;> fr_level [kSchemaVersion, kClients]
+      | cons x xs =>
+        simp at hp
+        cases hm : mapM' v22Client (x :: xs) with
+        | error e => simp [FrameOK, hm]
+        | ok ys =>
+          simp only [hm]
+          fr_norm
+          refine frameV_obj_mod' _ _ _ _ [kSchemaVersion, kClients] (Or.inr (by decide)) (by lk_diff) ?_
+          refine allKeys_cons (key_touched (by decide)) (allKeys_cons ?_ allKeys_nil)
+          fr_sub o
+          refine frameV_obj_mod' _ _ _ _ [kPersistent] (Or.inr (by decide)) (by lk_diff) ?_
+          refine allKeys_cons ?_ allKeys_nil
+          refine key_arr o hp (by lk_simp) (Or.inr (by decide))
+            (frameList_mapM' o _ _ (v22Client_frame o 22 _ (by decide) (by decide)) _ ys hm)
+    · (try fr_pre) <;> (try fr_norm) <;> fr_level [kSchemaVersion, kClients]
+    · (try fr_pre) <;> (try fr_norm) <;> (try trivial)
+  · (try fr_pre) <;> (try fr_norm) <;> fr_level [kSchemaVersion, kClients]
+  · (try fr_pre) <;> (try fr_norm) <;> (try trivial)
+
+/-! ### v10, v27, v29 -/
+
+theorem v10Field_lookup (o : Oracles) (w : List (Key × YVal)) (k : Key) {w' : List (Key × YVal)}
+    (h : v10Field o (.obj w) k = .ok (.obj w')) : ∀ k', ¬ k' = k → lookup k' w' = lookup k' w := by
+  unfold v10Field at h
+  dsimp only at h
+  split at h
+  · simp [typeErr] at h
+  · split at h
+    · split at h
+      · rename_i xs _
+        cases hm : mapM' (v10Ups o) xs with
+        | error e => simp [hm] at h
+        | ok ys =>
+          simp [hm, setK] at h; subst h
+          intro k' hk'; exact lookup_insert_ne' _ _ _ _ hk'
+      · simp at h
+    · simp at h; subst h; intro _ _; rfl
+
+theorem step10_frame (o : Oracles) (es) : FrameOK o 10 es (migrateTo10 o (.obj es)) := by
+  simp only [migrateTo10, stamp, setK]
+  fv_split2
+  · rename_i w hs
+    have hk : subOK o [] (.obj w) = true ∨ True := Or.inr trivial
+    cases h1 : v10Field o (.obj w) kUpstreamDns with
+    | error e => simp [FrameOK]
+    | ok d1 =>
+      -- the result of a block is a map
+      have ho1 : ∃ w1, d1 = .obj w1 := by
+        rcases v10Field_spec o w kUpstreamDns with ⟨w1, hw⟩ | ⟨e, he, _⟩
+        · rw [h1] at hw; exact ⟨w1, by simpa using hw⟩
+        · rw [h1] at he; simp at he
+      obtain ⟨w1, rfl⟩ := ho1
+      dsimp only
+      cases h2 : v10Field o (.obj w1) kLocalPtrUpstreams with
+      | error e => simp [FrameOK]
+      | ok d2 =>
+        have ho2 : ∃ w2, d2 = .obj w2 := by
+          rcases v10Field_spec o w1 kLocalPtrUpstreams with ⟨w2, hw⟩ | ⟨e, he, _⟩
+          · rw [h2] at hw; exact ⟨w2, by simpa using hw⟩
+          · rw [h2] at he; simp at he
+        obtain ⟨w2, rfl⟩ := ho2
+        fr_norm
+        fr_level [kSchemaVersion, kDns]
+        fr_sub o
+        refine frameV_obj_mod' _ _ _ _ [kUpstreamDns, kLocalPtrUpstreams] (Or.inr (by decide)) ?_ ?_
+        · intro k hk
+          simp only [List.mem_cons, List.mem_nil_iff, or_false, not_or] at hk
+          rw [lookup_erEnts, lookup_erEnts, v10Field_lookup o w1 _ h2 k hk.2, v10Field_lookup o w _ h1 k hk.1]
+        · exact allKeys_cons (key_touched (by decide)) (allKeys_cons (key_touched (by decide)) allKeys_nil)
+  · (try fr_pre) <;> (try fr_norm) <;> fr_level [kSchemaVersion, kDns]
+  · (try fr_pre) <;> (try fr_norm) <;> (try trivial)
+
+/-- What `replaceDot` does to the document. -/
+theorem replaceDot_shape (es : List (Key × YVal)) (key : Key) {d : YVal} (h : replaceDot (.obj es) key = .ok d) :
+    d = .obj es ∨ ∃ (w : List (Key × YVal)) (xs : List YVal), lookup key es = some (.obj w) ∧
+      d = .obj (insert key (.obj (insert kIgnored (.arr (xs.map v27Host)) w)) es) := by
+  unfold replaceDot at h
+  dsimp only at h
+  revert h
+  fv_split2
+  · rename_i w hs
+    fv_split2
+    · split
+      · rename_i xs hg
+        intro h; simp [putK] at h
+        exact Or.inr ⟨w, xs, by simpa [getK] using hs, h.symm⟩
+      · intro h; simp at h; exact Or.inl h.symm
+    · intro h; simp at h; exact Or.inl h.symm
+    · intro h; simp [typeErr] at h
+  · intro h; simp at h; exact Or.inl h.symm
+  · intro h; simp [typeErr] at h
+
+theorem step27_frame (o : Oracles) (es) : FrameOK o 27 es (migrateTo27 (.obj es)) := by
+  simp only [migrateTo27, stamp, setK]
+  cases h1 : replaceDot (.obj (insert kSchemaVersion (.int ((27 : Nat) : Int)) es)) kQuerylog with
+  | error e => simp [FrameOK]
+  | ok d1 =>
+    dsimp only
+    rcases replaceDot_shape _ _ h1 with rfl | ⟨q, xs, hq, rfl⟩
+    · cases h2 : replaceDot (.obj (insert kSchemaVersion (.int ((27 : Nat) : Int)) es)) kStatistics with
+      | error e => simp [FrameOK]
+      | ok d2 =>
+        rcases replaceDot_shape _ _ h2 with rfl | ⟨st, ys, hst, rfl⟩
+        · fr_norm; fr_level [kSchemaVersion, kQuerylog, kStatistics]
+        · simp (config := {decide := true}) only [lookup_insert_ne, ne_eq, not_false_eq_true] at hst
+          fr_norm; fr_level [kSchemaVersion, kQuerylog, kStatistics]
+          fr_sub o; fr_level [kIgnored]
+    · simp (config := {decide := true}) only [lookup_insert_ne, ne_eq, not_false_eq_true] at hq
+      cases h2 : replaceDot (.obj (insert kQuerylog (.obj (insert kIgnored (.arr (xs.map v27Host)) q))
+          (insert kSchemaVersion (.int ((27 : Nat) : Int)) es))) kStatistics with
+      | error e => simp [FrameOK]
+      | ok d2 =>
+        rcases replaceDot_shape _ _ h2 with rfl | ⟨st, ys, hst, rfl⟩
+        · fr_norm; fr_level [kSchemaVersion, kQuerylog, kStatistics]
+          fr_sub o; fr_level [kIgnored]
+        · simp (config := {decide := true}) only [lookup_insert_ne, ne_eq, not_false_eq_true] at hst
+          fr_norm; fr_level [kSchemaVersion, kQuerylog, kStatistics]
+          all_goals (fr_sub o; fr_level [kIgnored])
+
+theorem step29_frame (o : Oracles) (es) : FrameOK o 29 es (migrateTo29 o (.obj es)) := by
+  simp only [migrateTo29, stamp, setK]
+  fv_split2
+  · rename_i xs hx
+    cases hp : v29Paths xs with
+    | error e => simp [FrameOK]
+    | ok ps =>
+      dsimp only
+      fv_split2 <;> (try fr_pre) <;> (try fr_norm) <;> (try trivial) <;> fr_level [kSchemaVersion, kFiltering]
+      all_goals (fr_sub o; fr_level [kSafeFsPatterns])
+  · (try fr_pre) <;> (try fr_norm) <;> fr_level [kSchemaVersion, kFiltering]
+  · (try fr_pre) <;> (try fr_norm) <;> (try trivial)
 
 end AGH.C13
